@@ -26,17 +26,17 @@ type P[X sigma.Statement, W sigma.Witness, A sigma.Statement, S sigma.State, Z s
 	Sample func(r *rand.Rand) (X, W) // a valid pair, statement not the identity
 	FromW  func(w []uint64) (X, W)   // exact mode: the pair for a given witness vector
 
-	PX func(X) []uint64
-	PW func(W) []uint64
-	PA func(A) []uint64
-	PS func(S) []uint64
-	PZ func(Z) []uint64
+	PX  func(X) []uint64
+	PW  func(W) []uint64
+	PA  func(A) []uint64
+	PS  func(S) []uint64
+	PZ  func(Z) []uint64
 	MkX func([]uint64) X
 	MkA func([]uint64) A
 	MkZ func([]uint64) Z
 
 	Extract func(x X, a A, es []sigma.ChallengeBytes, zs []Z) (W, error)
-	NR      int // number of field elements Commit draws from the prng (exact mode scripting)
+	NR      int  // number of field elements Commit draws from the prng (exact mode scripting)
 	ZArity  bool // the response is a vector whose length the decoder does not fix (Okamoto)
 	AArity  bool // the commitment / statement is such a vector (elcomop)
 }
